@@ -11,7 +11,7 @@ from .minimise import Budget, ddmin, shrink_text
 from .prng import Rng, derive
 
 VERIF = runner.VERIF
-REPLAYS = os.path.join(VERIF, "replays")
+REPLAYS = os.environ.get("VERIF_REPLAY_DIR") or os.path.join(VERIF, "replays")
 
 
 # ------------------------------------------------------------------- goldens
